@@ -83,3 +83,21 @@ Definition py_proc_ref (tt : list EngineSM.row) (structs protos msgs : list stri
 Definition py_proc_reads (tt : list EngineSM.row) (structs protos msgs : list string) : bool :=
   reads_all "X" (flat_map (ref_item16 (elements_of (table_of tt) structs protos msgs)) py_proc16) (gen_proc (table_of tt)).
 Definition py_proc_ok : bool := match py_proc16_opt with Some _ => true | None => false end.
+
+(* ---------------------------------------------------------------- the constructor's behaviour-deciding lines
+   (selected as translator/pytmpl.py selects them: the def line and the lines that mention the initial state) *)
+Definition py_init_def : string := "    def __init__(self, controller):" ++ nl_str.
+Definition py_init_lines : list string :=
+  match load_file dict0 py_file with
+  | Some l => filter (fun s => String.eqb s py_init_def || contains "<<<STATE_0>>>" s) l
+  | None => []
+  end.
+Definition py_init16_opt : option template16 :=
+  match parse16 py_init_lines with
+  | Some t => if list_eqb (render16 t) py_init_lines && in_grammar16 t && Nat.eqb (List.length py_init_lines) 3 then Some t else None
+  | None => None
+  end.
+Definition py_init16 : template16 := match py_init16_opt with Some t => t | None => [] end.
+Definition gen_init (t : table) : list line :=
+  [(4, ADef "__init__"); (8, AEntryStartup (getfirststate t)); (8, ASetState (getfirststate t))].
+Definition py_init_ref (tt : list EngineSM.row) (structs protos msgs : list string) : string := ref16_rows tt structs protos msgs py_init16.
